@@ -7,7 +7,7 @@ from ..peval import Unsupported, ProgramRaised
 from ..poly import Poly, Fn
 from ..source import AnalysisError
 from .core_models import RawTok, ArrTok, OpTok, core_hooks, make_vector, vector_components
-from .core_folds import DS_Q, call_method, new_group, _ev
+from .core_folds import DS_Q, call_method, new_group, _ev, pub
 
 ERR = (Unsupported, AnalysisError)
 FUNCS = {"sphere": "spatial/subdomain.py::extract_sphere", "box": "spatial/subdomain.py::extract_box"}
@@ -234,7 +234,7 @@ class Scenario:
         out = {"keys": list(self._groups(self.ds)), "meta": dict(self.ds._attrs.get("meta", {})), "meta_id": id(self.ds._attrs.get("meta"))}
         for name, g in self._groups(self.ds).items():
             cont = g._attrs["_container"]
-            out[name] = (id(g), id(g._attrs.get("parent")), g._attrs.get("name"), [(k, id(v), member_state(self, v)) for k, v in cont.items()])
+            out[name] = (id(g), id(pub(self.tree, self.hooks, g, "parent")), pub(self.tree, self.hooks, g, "name"), [(k, id(v), member_state(self, v)) for k, v in cont.items()])
         return out
 
     @staticmethod
@@ -315,7 +315,7 @@ def check_extract(run, tree, mesh_name):
                     if g is ing[name]:
                         problems.append("group %r of the result IS the input group object" % name)
                         continue
-                    if g._attrs.get("parent") is not res:
+                    if pub(sc.tree, sc.hooks, g, "parent") is not res:
                         problems.append("group %r of the result is not linked to the result dataset" % name)
                     cont = g._attrs["_container"]
                     incont = ing[name]._attrs["_container"]
